@@ -73,6 +73,9 @@ def oracle(case):
         return out
     cref = canonical(ref)
     d, _, _ = compare_with_expected(ref, spec, mnemonic_case=mc)
+    if spec.get("other_ends_blank"):
+        # how many empty lines at the very end of the file count as text is lasio's business; here only: every channel alike
+        d = [x for x in d if x[0] != "Other.text"]
     if d:
         out.fail("differs-from-expected|%s" % d[0][0], canon.show(d) + "\n" + text)
         return out
@@ -156,6 +159,13 @@ def specs(draw, alphabet):
         secs.insert(3, asec)  # header sections after the data: their place in the file is found again by position
     else:
         secs.append(asec)
+    if draw(st.integers(0, 7)) == 0:
+        # a first line longer than any file name can be: a multi-line string is still content, whatever its first line
+        secs[0]["ttrail"] = " " + "-" * draw(st.sampled_from([300, 4200, 9000]))
+    if secs[-1]["kind"] == "O" and draw(st.booleans()):
+        # ~Other is the last section and ends with empty lines: they belong to its text in every channel
+        secs[-1]["lines"] = secs[-1]["lines"] + [{"t": "blank", "text": ""}] * draw(st.integers(1, 2))
+        return {"nl": "\n", "final_nl": draw(st.booleans()), "sections": secs, "other_ends_blank": True}
     return {"nl": "\n", "final_nl": draw(st.booleans()), "sections": secs}
 
 
